@@ -123,7 +123,10 @@ structure InitState where
   svcs : List Mod := []        -- keys of servicesMap
 deriving Repr, DecidableEq
 
-inductive InitErr | unrecognised | initFailed (m : Mod) | crash
+/-- the error `InitModuleServices` returns: `unrecognised t` ("unrecognised module name: t"),
+`initFailed m` ("error initialising module: m: …", wrapping what `initFn` returned), `crash` = `listDeps`
+does not return (impossible for graphs built with `AddDependency`, see `Props/C18.lean`). -/
+inductive InitErr | unrecognised (t : Mod) | initFailed (m : Mod) | crash
 deriving DecidableEq, Repr
 
 def initLoop (cfg : Cfg) : List Mod → InitState → Except InitErr InitState
@@ -141,7 +144,7 @@ def initLoop (cfg : Cfg) : List Mod → InitState → Except InitErr InitState
 /-- `initModule(name, initMap, servicesMap)` -/
 def initModule (g : Graph) (cfg : Cfg) (fuel : Nat) (orders : Nat → List Mod) (name : Mod) (st : InitState) :
     Except InitErr InitState :=
-  if !g.has name then .error .unrecognised
+  if !g.has name then .error (.unrecognised name)
   else match orderedDeps g fuel orders name with
     | none => .error .crash
     | some deps => initLoop cfg (deps ++ [name]) st
@@ -154,6 +157,52 @@ def initModules (g : Graph) (cfg : Cfg) (fuel : Nat) (orders : Nat → Nat → L
     match initModule g cfg fuel (orders c) t st with
     | .error e => .error e
     | .ok st' => initModules g cfg fuel orders (c + 1) ts st'
+
+/-! #### the same three functions, keeping the state at the moment an error is returned
+
+Go returns `(nil, err)`; what the theorems about the failure paths talk about is what had been done by
+then: `initMap` (`inited`), the `initFn` calls made (`log`, the failing one included) and `servicesMap`. -/
+
+def initLoopT (cfg : Cfg) : List Mod → InitState → InitState × Option InitErr
+  | [], st => (st, none)
+  | n :: rest, st =>
+    if st.inited.contains n then initLoopT cfg rest st
+    else if cfg.hasInit.getD n false then
+      if cfg.initErr.getD n false then ({ st with log := st.log ++ [n] }, some (.initFailed n))
+      else if cfg.hasSvc.getD n false then
+        initLoopT cfg rest { st with log := st.log ++ [n], svcs := st.svcs ++ [n], inited := st.inited ++ [n] }
+      else initLoopT cfg rest { st with log := st.log ++ [n], inited := st.inited ++ [n] }
+    else initLoopT cfg rest { st with inited := st.inited ++ [n] }
+
+def initModuleT (g : Graph) (cfg : Cfg) (fuel : Nat) (orders : Nat → List Mod) (name : Mod) (st : InitState) :
+    InitState × Option InitErr :=
+  if !g.has name then (st, some (.unrecognised name))
+  else match orderedDeps g fuel orders name with
+    | none => (st, some .crash)
+    | some deps => initLoopT cfg (deps ++ [name]) st
+
+def initModulesT (g : Graph) (cfg : Cfg) (fuel : Nat) (orders : Nat → Nat → List Mod) :
+    Nat → List Mod → InitState → InitState × Option InitErr
+  | _, [], st => (st, none)
+  | c, t :: ts, st =>
+    match initModuleT g cfg fuel (orders c) t st with
+    | (st', some e) => (st', some e)
+    | (st', none) => initModulesT g cfg fuel orders (c + 1) ts st'
+
+/-! #### module options (`RegisterModule(name, initFn, options...)`) -/
+
+inductive ModOpt | userInvisible | userInvisibleTargetable
+deriving DecidableEq, Repr
+
+/-- (userVisible, targetable) after the options have been applied in order to the defaults (true, true). -/
+def applyOpts : List ModOpt → Bool × Bool
+  | opts => opts.foldl (fun _ o => match o with
+      | .userInvisible => (false, false)
+      | .userInvisibleTargetable => (false, true)) (true, true)
+
+/-- `UserVisibleModuleNames` (as module numbers). -/
+def userVisibleModules (opts : List (List ModOpt)) : List Mod :=
+  (List.range opts.length).filter fun i => (applyOpts (opts.getD i [])).1
 
 /-! ### run time: the wrappers (`moduleService`) around the modules' own ("inner") services
 
@@ -311,5 +360,17 @@ def Sys.step (s : Sys) (e : REv) : Sys :=
   | some (m, x) => s.set m x
 
 def Sys.run (s : Sys) (evs : List REv) : Sys := evs.foldl Sys.step s
+
+/-- a schedule that finishes module `m` once every module depending on it has finished: ask the wrapper
+to stop, let every wait return, let the three functions of the inner service return nil. (Steps that
+are not enabled in the state at hand are no-ops, so one fixed list serves every state.) -/
+def modSched (m : Mod) : List REv :=
+  [.wStop m, .awaitCancelled m, .innerStartFailed m, .runExit m, .dependantsGone m,
+   .iStartRet m true, .iRunRet m true, .iStopRet m true, .cleanupDone m, .innerStopped m]
+
+/-- a schedule that finishes the whole system from ANY state: `|mods|` rounds over all modules (each
+round finishes at least the modules all of whose dependants have finished). -/
+def finishSchedule (mods : List Mod) : List REv :=
+  (List.replicate mods.length (mods.flatMap modSched)).flatten
 
 end C18
